@@ -158,6 +158,70 @@ class HvGuardReturn(Logic):
         self.q.prepare(self.total)
 
 
+class HvStride(Logic):
+    """a constructor constant used bare as a truth value (any non-zero value is true)"""
+    def __init__(self, parent, name, en, pos, stride):
+        super().__init__(parent, name)
+        self.en = self.addIn('en', en)
+        self.pos = self.addOut('pos', pos)
+        self.stride = stride
+        self.cur = 0
+
+    def clock(self):
+        if self.en.get() == 1:
+            if self.stride:
+                self.cur = (self.cur + self.stride) & 63
+            else:
+                self.cur = (self.cur + 1) & 63
+        self.pos.prepare(self.cur)
+
+
+class HvFloatAttr(Logic):
+    """a constructor attribute that is not an integer (Verilog has no such variable: must be refused, not dropped)"""
+    def __init__(self, parent, name, level, alarm):
+        super().__init__(parent, name)
+        self.level = self.addIn('level', level)
+        self.alarm = self.addOut('alarm', alarm)
+        self.trip = 2.5
+        self.count = 0
+
+    def clock(self):
+        if self.level.get() > self.trip:
+            self.count = (self.count + 1) & 15
+        self.alarm.prepare(self.count)
+
+
+class HvChainAssign(Logic):
+    """chained assignment whose right-hand side reads the first target"""
+    def __init__(self, parent, name, push, q, p):
+        super().__init__(parent, name)
+        self.push = self.addIn('push', push)
+        self.q = self.addOut('q', q)
+        self.p = self.addOut('p', p)
+        self.head = 0
+        self.mark = 0
+
+    def clock(self):
+        if self.push.get() == 1:
+            self.head = self.mark = (self.head + 1) & 15
+        self.q.prepare(self.head)
+        self.p.prepare(self.mark)
+
+
+class HvUnusedState(Logic):
+    """a constructor attribute that clock() never touches (it must be declared if it is initialised)"""
+    def __init__(self, parent, name, a, q):
+        super().__init__(parent, name)
+        self.a = self.addIn('a', a)
+        self.q = self.addOut('q', q)
+        self.spare = 7
+        self.acc = 0
+
+    def clock(self):
+        self.acc = (self.acc + self.a.get()) & 31
+        self.q.prepare(self.acc)
+
+
 class HvAccum(Logic):
     def __init__(self, parent, name, a, en, clr, q):
         super().__init__(parent, name)
@@ -644,6 +708,11 @@ def run(ctx, sm, facts):
         counts[r] = counts.get(r, 0) + 1
     for name, build, st, flt in (
             ('HvAccum', lambda D: D.make('HvAccum', 'dut', D.wire('a', 4), D.wire('en'), D.wire('clr'), D.wire('q', 8), rel=CASES_REL), ['acc', 'last'], None),
+            ('HvStride(3)', lambda D: D.make('HvStride', 'dut', D.wire('en'), D.wire('pos', 6), 3, rel=CASES_REL), ['cur'], None),
+            ('HvStride(0)', lambda D: D.make('HvStride', 'dut', D.wire('en'), D.wire('pos', 6), 0, rel=CASES_REL), ['cur'], None),
+            ('HvFloatAttr', lambda D: D.make('HvFloatAttr', 'dut', D.wire('level', 3), D.wire('alarm', 4), rel=CASES_REL), ['count'], None),
+            ('HvChainAssign', lambda D: D.make('HvChainAssign', 'dut', D.wire('push'), D.wire('q', 4), D.wire('p', 4), rel=CASES_REL), ['head', 'mark'], None),
+            ('HvUnusedState', lambda D: D.make('HvUnusedState', 'dut', D.wire('a', 3), D.wire('q', 5), rel=CASES_REL), ['acc'], None),
             ('HvFlagState', lambda D: D.make('HvFlagState', 'dut', D.wire('req', 3), D.wire('q', 4), rel=CASES_REL), ['pending', 'count'], None),
             ('HvGuardReturn', lambda D: D.make('HvGuardReturn', 'dut', D.wire('a', 3), D.wire('en'), D.wire('q', 6), rel=CASES_REL), ['total'], None),
             ('HvMatch', lambda D: D.make('HvMatch', 'dut', D.wire('go'), D.wire('x', 3), D.wire('y', 5), rel=CASES_REL), ['state'], None),
